@@ -118,19 +118,30 @@ def routes(job):
     from toasty import toast
     from toasty.pyramid import Pos
 
-    positions, planetary, full_depth = job
+    positions, first_planetary, full_depth = job
     part = Part()
-    csn = "planetary" if planetary else "astronomical"
-    cs = cs_of(planetary)
-    full = {}
-    if full_depth:
-        for t in toast.generate_tiles(full_depth, bottom_only=False, coordsys=cs):
-            full[tuple(t.pos)] = t
+    # both coordinate systems are exercised alternately inside one process (state leaking from one
+    # system into the other - a cache keyed by position only - must show), in both orders
+    half = len(positions) // 2
+    work = []
+    for k, p in enumerate(positions):
+        order = (first_planetary, not first_planetary) if k < half else (not first_planetary, first_planetary)
+        for planetary in order:
+            work.append((p, planetary))
+    fulls = {}
+    for planetary in (False, True):
+        fulls[planetary] = {}
+        if full_depth:
+            for t in toast.generate_tiles(full_depth, bottom_only=False, coordsys=cs_of(planetary)):
+                fulls[planetary][tuple(t.pos)] = t
 
     def bad(clause, detail, cfg):
-        part.violation("%s/coordsys=%s" % (clause, csn), "%r: %s" % (cfg, detail), cfg)
+        part.violation("%s/coordsys=%s" % (clause, cfg["coordsys"]), "%r: %s" % (cfg, detail), cfg)
 
-    for (n, x, y) in positions:
+    for (n, x, y), planetary in work:
+        csn = "planetary" if planetary else "astronomical"
+        cs = cs_of(planetary)
+        full = fulls[planetary]
         cfg = {"pos": (n, x, y), "coordsys": csn}
         part.case(nontrivial=True)
         c, inc = tg.single(n, x, y, planetary)
@@ -165,7 +176,7 @@ def routes(job):
             bad("route-lookup/wrong-tile", "lookup at the tile's centre returned %r" % (tuple(pt.pos),), cfg)
         elif tg.angdist(tvec(pt), vs).max() > 1e-12 or bool(pt.increasing) != bool(s.increasing):
             bad("routes-disagree/lookup-vs-single", "corners differ by %.3g rad" % tg.angdist(tvec(pt), vs).max(), cfg)
-    part.sample({"routes": "single/filtered/lookup", "coordsys": csn, "example": positions[len(positions) // 2]})
+    part.sample({"routes": "single/filtered/lookup", "coordsys": "both, alternating", "example": positions[len(positions) // 2]})
     return part
 
 
@@ -187,13 +198,13 @@ def run(tier, seed):
     rd = 4 if tier == "quick" else 5
     for planetary in (False, True):
         jobs.append(("full", D, planetary))
-        allp = [(n, x, y) for n in range(1, rd + 1) for y in range(2**n) for x in range(2**n)]
-        k = 6
-        for i in range(k):
-            jobs.append(("routes", allp[i::k], planetary, rd))
-        lat = [p for p in lattice(nlat) if p[0] > rd]
-        for i in range(k):
-            jobs.append(("routes", lat[i::k], planetary, 0))
+    allp = [(n, x, y) for n in range(1, rd + 1) for y in range(2**n) for x in range(2**n)]
+    k = 10
+    for i in range(k):
+        jobs.append(("routes", allp[i::k], bool(i % 2), rd))
+    lat = [p for p in lattice(nlat) if p[0] > rd]
+    for i in range(k):
+        jobs.append(("routes", lat[i::k], bool(i % 2), 0))
     par.pmap(_job, jobs, rep)
     return rep.finish()
 
